@@ -484,11 +484,11 @@ func (x *Exec) evalSliceExpr(e *ast.SliceExpr, st *State) *Value {
 		panic(engErr("3-index slice not supported at %s", x.pos(e)))
 	}
 	xt := types.Unalias(x.typeOf(e.X)).Underlying()
-	var arr, off, ln *Term
+	var arr, off, ln, cp *Term
 	switch u := xt.(type) {
 	case *types.Slice:
 		s := x.eval(e.X, st)
-		arr, off, ln = SArr(s.Tm), SOff(s.Tm), SLen(s.Tm)
+		arr, off, ln, cp = SArr(s.Tm), SOff(s.Tm), SLen(s.Tm), SCap(s.Tm)
 	case *types.Pointer:
 		at, ok := u.Elem().Underlying().(*types.Array)
 		if !ok {
@@ -535,13 +535,15 @@ func (x *Exec) evalSliceExpr(e *ast.SliceExpr, st *State) *Value {
 	if e.High != nil {
 		hi = x.toInt(x.eval(e.High, st))
 	}
-	// Go allows hi up to cap; we model cap == len (conservative: flags reslicing beyond len)
-	c := And(Le(IntLit(0), lo), Le(lo, hi), Le(hi, ln))
+	if cp == nil {
+		cp = ln
+	}
+	c := And(Le(IntLit(0), lo), Le(lo, hi), Le(hi, cp))
 	if c != True {
 		x.oblige(st, "slice", "bounds", c, e)
 		x.assume(st, c)
 	}
-	return &Value{T: x.typeOf(e), Tm: MkSlice(arr, Add(off, lo), Sub(hi, lo))}
+	return &Value{T: x.typeOf(e), Tm: MkSliceC(arr, Add(off, lo), Sub(hi, lo), Sub(cp, lo))}
 }
 
 // subRef gives array-typed struct fields a derived reference so they can be sliced.
